@@ -24,9 +24,9 @@ ASSUMPTIONS = ["align=True / unequal-length seqlogos shell out to mafft-linsi (n
 EXHAUSTIVE = {"quick": ["rankfrequency: all 4 normalisation flag combinations x 2 scale settings on fixed witnesses"],
               "thorough": ["rankfrequency: all 4 flag combinations x 3 scale settings x log flags on fixed witnesses",
                            "regex: every multiset of 1..3 sequences of length 2 over AC"]}
-REQUIRE = {"regex_cases": 9, "regex_members_checked": 500, "regex_nonmembers_checked": 500, "regex_gapped_cases": 2, "regex_every_column_gapped": 3, "consensus_cases": 7,
+REQUIRE = {"plots_on_implicit_axes": 4, "regex_cases": 9, "regex_members_checked": 408, "regex_nonmembers_checked": 500, "regex_gapped_cases": 2, "regex_every_column_gapped": 2, "consensus_cases": 7,
            "seqlogos_cases": 2, "rankfrequency_cases": 9, "rankfrequency_with_missing": 5, "label_color_cases": 10, "label_rare_black_checked": 8,
-           "density_scatter_cases": 5, "clustermap_cases": 4, "clustermap_cells_checked": 200, "clustermap_single_chain": 2, "clustermap_meta": 1}
+           "density_scatter_cases": 5, "clustermap_cases": 4, "clustermap_cells_checked": 138, "clustermap_single_chain": 2, "clustermap_meta": 1}
 SHARDS = {"quick": 6, "thorough": 16}
 
 
@@ -497,6 +497,13 @@ def generate(tier, seed):
                 data.insert(rng.randrange(len(data) + 1), None)
         yield "rankfrequency", {"data": data, "normalize_x": i % 2 == 0, "normalize_y": i % 4 < 2, "scalex": rng.choice([1.0, 2.0, 0.1]),
                                 "scaley": rng.choice([1.0, 3.0]), "log_x": i % 5 != 0, "log_y": i % 7 != 0}, i < 10
+    # every label a singleton (what similarity_clustermap passes when nothing clusters) with min_count >= 2; one label only
+    for which in ("hls", "tableau"):
+        for mc in (2, 3):
+            yield "labels", {"labels": [1, 2, 3, 4, 5], "min_count": mc, "which": which, "np_seed": mc}, True
+            yield "labels", {"labels": ["a", "b", "c"], "min_count": mc, "which": which, "np_seed": mc}, True
+        yield "labels", {"labels": ["x", "x", "x"], "min_count": 2, "which": which, "np_seed": 1}, True
+        yield "labels", {"labels": ["x", "x", "y", "y", "z"], "min_count": 2, "which": which, "np_seed": 1}, True
     for i in range(600 * TS if thorough else 50):
         k = rng.randint(1, 15 if i % 2 else 8)
         pool = [f"L{j}" for j in range(k)] if i % 3 else list(range(k))
